@@ -1,6 +1,8 @@
 //! Correspondence harness: runs the real rust-debruijn code (path dependency on /repo's working tree)
 //! on generated cases and writes `op input result` lines for the extracted Coq model to check.
 //! usage: dbg-harness <property> <seed> <quick|thorough> <shard> <nshards> <outfile>
+mod c07;
+mod c08;
 mod c11;
 mod kmers;
 mod val;
@@ -37,6 +39,8 @@ fn main() {
     match prop {
         "C10" => kmers::c10(&mut out, &mut rng, &tier),
         "C11" => c11::c11(&mut out, &mut rng, &tier),
+        "C07" => c07::c07(&mut out, &mut rng, &tier),
+        "C08" => c08::c08(&mut out, &mut rng, &tier),
         _ => {
             eprintln!("unknown property {}", prop);
             std::process::exit(2);
